@@ -214,6 +214,17 @@ def real_settings(batch):
     from mxlpy.fit.abstract import _Settings
     out = []
     for c in batch:
+        if c.get("fcols"):
+            # time-course shaped data: a DataFrame, one column per measured quantity, None = not measured at that time
+            import numpy as np
+            idx = [float(i) for i in range(len(next(iter(c["fcols"].values()))))]
+            df = pd.DataFrame({k: [np.nan if x is None else float(F(x)) for x in col] for k, col in c["fcols"].items()}, index=idx)
+            pf = pd.DataFrame({k: [float(F(x)) for x in col] for k, col in c["fpred"].items()}, index=idx)
+            s = _Settings(model=None, data=df, y0=None, integrator=None, loss_fn=getattr(losses, c["loss"]), p_names=[],
+                          v_names=[], standard_scale=c["on"])
+            with _np_quiet():
+                out.append({"v": float(s.loss(pf)), "at_data": float(s.loss(df.fillna(pf)))})
+            continue
         d = pd.Series([float(F(x)) for x in c["d"]], index=[f"x{i}" for i in range(len(c["d"]))])
         p = pd.Series([float(F(x)) for x in c["p"]], index=d.index)
         s = _Settings(model=None, data=d, y0=None, integrator=None, loss_fn=getattr(losses, c["loss"]), p_names=[],
@@ -222,7 +233,51 @@ def real_settings(batch):
     return out
 
 
+def gen_frame_settings_case(rng, shape):
+    """data frames as time-course fits get them: dense, a constant column, ONE row, a column measured only once"""
+    pool = [F(k, 4) for k in range(-8, 13) if k != 0]
+    n = 1 if shape == "one-row" else rng.choice([2, 3, 4, 5])
+    cols = {}
+    for name in rng.sample(["x", "y", "v1"], rng.randint(1, 3)):
+        col = [rng.choice(pool) for _ in range(n)]
+        if shape == "constant-column" and len(cols) == 0:
+            col = [col[0]] * n
+        cols[name] = col
+    pred = {k: [x + rng.choice([0, F(1, 2), -1, 2]) for x in col] for k, col in cols.items()}
+    data = {k: [q(x) for x in col] for k, col in cols.items()}
+    if shape == "measured-once" and n > 1:
+        k = rng.choice(sorted(data))
+        keep = rng.randrange(n)
+        data[k] = [x if i == keep else None for i, x in enumerate(data[k])]
+    return {"fcols": data, "fpred": {k: [q(x) for x in col] for k, col in pred.items()}, "loss": rng.choice(["mean_squared", "mae", "rmse"]),
+            "on": rng.random() < 0.85, "shape": shape}
+
+
+def judge_frame_settings(ctx, c, r):
+    ctx.count(c, f"settings-frame:{c['shape']}:{c['loss']}:{'scaled' if c['on'] else 'plain'}:{len(c['fcols'])}cols")
+    import numpy as np
+    devs = []
+    for k, col in c["fcols"].items():
+        meas = [i for i, x in enumerate(col) if x is not None]
+        d = np.array([float(F(col[i])) for i in meas])
+        pr = np.array([float(F(c["fpred"][k][i])) for i in meas])
+        mu, sd = 0.0, 1.0
+        if c["on"]:
+            mu = float(d.mean())
+            sd = float(d.std(ddof=1)) if len(d) > 1 else float("nan")
+            sd = sd if sd > 0 else 1.0  # no spread / a single measurement: compared unscaled
+        devs += list(((d - mu) / sd) - ((pr - mu) / sd))
+    devs = np.array(devs)
+    sv = {"mean_squared": float(np.mean(devs ** 2)), "rmse": float(np.sqrt(np.mean(devs ** 2))), "mae": float(np.mean(np.abs(devs)))}[c["loss"]]
+    R = {"close": abs(r["v"] - sv) <= 1e-9 * max(1.0, abs(sv)), "zero_at_data": abs(r["at_data"]) <= 1e-12}
+    ctx.judge({"stream": "scale", **c}, R, {"close": True, "zero_at_data": True}, None,
+              what="_Settings.loss on a data FRAME: per-column mean/std of the measured points, a column without spread unscaled")
+
+
 def judge_settings(ctx, c, r, rng_unused=None):
+    if c.get("fcols"):
+        judge_frame_settings(ctx, c, r)
+        return
     ctx.count(c, f"settings:{c['loss']}:{'scaled' if c['on'] else 'plain'}")
     d = [F(x) for x in c["d"]]
     p = [F(x) for x in c["p"]]
@@ -1301,14 +1356,17 @@ def run(ctx):
     # data without spread: one measurement, constant measurements
     set_cases += [{"loss": rng.choice(["mean_squared", "mae"]), "d": d, "p": [q(F(x) + rng.choice([0, F(1, 2), -1])) for x in d], "on": True}
                   for d in (["3/2"], ["2", "2"], ["-1/4", "-1/4", "-1/4", "-1/4"], ["5"])]
+    # data frames (time-course / protocol fits): dense, constant column, a single row, a column measured only once
+    set_cases += [gen_frame_settings_case(rng, shape) for shape in ("dense", "constant-column", "one-row", "measured-once")
+                  for _ in range(ctx.n(4, 60))]
     # the percentage loss divides by its FIRST argument: this is where the argument order of _Settings.loss shows
     set_cases += [{"loss": "mean_absolute_percentage", "d": c["d"], "p": c["p"], "on": False}
                   for c in (gen_loss_case(rng, "mean_absolute_percentage") for _ in range(ctx.n(12, 200)))]
     # the pool-spawning cases go first so that they overlap with the cheap ones
-    fit_cases = [gen_multi_case(rng, "ens") for _ in range(ctx.n(2, 30))] + [gen_multi_case(rng, "joint") for _ in range(ctx.n(2, 20))]
+    fit_cases = [gen_multi_case(rng, "ens") for _ in range(ctx.n(2, 12))] + [gen_multi_case(rng, "joint") for _ in range(ctx.n(2, 8))]
     fit_cases += gen_fit_cases(ctx) + [gen_quad_case(rng) for _ in range(ctx.n(40, 600))]
-    fit_cases += [gen_driver_case(rng) for _ in range(ctx.n(28, 500))]
-    fit_cases += [gen_pure_case(rng) for _ in range(ctx.n(20, 400))]
+    fit_cases += [gen_driver_case(rng) for _ in range(ctx.n(28, 300))]
+    fit_cases += [gen_pure_case(rng) for _ in range(ctx.n(20, 250))]
     import mxlpy  # noqa: F401
     with cf.ProcessPoolExecutor(max_workers=4) as ex:
         chunks = [loss_cases[i:i + 100] for i in range(0, len(loss_cases), 100)]
